@@ -195,10 +195,10 @@ func c03r5(c *Check) {
 }
 
 func c03r6(c *Check) {
-	checkStringSwitchMatcher(c, c.P.Func("route", "*baseRoute", "update"), "route.baseRoute.update (modRoute)", true)
-	checkStringSwitchMatcher(c, c.P.Func("destination", "*Destination", "Update"), "destination.Destination.Update (modDest)", true)
-	checkUpdateFlag(c, c.P.Func("route", "*baseRoute", "update"), "route.baseRoute.update (modRoute)")
-	checkUpdateFlag(c, c.P.Func("destination", "*Destination", "Update"), "destination.Destination.Update (modDest)")
+	checkStringSwitchMatcher(c, funcCalling(c.P, c.P.Func("route", "*baseRoute", "update"), modPath+"/matcher.New"), "route.baseRoute.update (modRoute)", true)
+	checkStringSwitchMatcher(c, funcCalling(c.P, c.P.Func("destination", "*Destination", "Update"), modPath+"/matcher.New"), "destination.Destination.Update (modDest)", true)
+	checkUpdateFlag(c, funcCalling(c.P, c.P.Func("route", "*baseRoute", "update"), modPath+"/matcher.New"), "route.baseRoute.update (modRoute)")
+	checkUpdateFlag(c, funcCalling(c.P, c.P.Func("destination", "*Destination", "Update"), modPath+"/matcher.New"), "destination.Destination.Update (modDest)")
 }
 
 func c03r2(c *Check) {
@@ -254,6 +254,10 @@ func c03r2(c *Check) {
 	// (b) run: AddOrCreate only after matchWithCache ok
 	run := c.P.Func("aggregator", "*Aggregator", "run")
 	cfg2 := &PathCfg{
+		// the body of the `in` case may be a helper method (handleMsg(m)); AddOrCreate and matchWithCache stay events
+		Inline: func(g *ssa.Function) bool {
+			return inlineSameRecv(c.P.Func("aggregator", "*Aggregator", "run"))(g) && g.Name() != "AddOrCreate" && g.Name() != "matchWithCache" && g.Name() != "Flush"
+		},
 		Classify: func(in ssa.Instruction) []string {
 			if isCallNamed(in, agg+"AddOrCreate") {
 				return []string{"add"}
@@ -757,6 +761,11 @@ func reCacheLockset(c *Check) {
 				bad++
 			}
 		})
+		if n > 0 && bad > 0 && len(ops) == 0 && callersHoldFieldMutex(c.P, fn, muF, true, 0) {
+			nAll += n
+			c.Hold(FuncName(fn)+" reCache under reCacheMutex", c.At(first), fmt.Sprintf("%d map operations in a helper whose every call site holds the mutex exclusively", n))
+			continue
+		}
 		if n > 0 {
 			nAll += n
 			c.Judge(bad == 0, FuncName(fn)+" reCache under reCacheMutex", c.At(first), fmt.Sprintf("%d map operations, all with the mutex held (writes exclusively)", n), fmt.Sprintf("%d of %d operations on the match cache without reCacheMutex held in the mode they need — a write under a read lock included (AddMaybe on input goroutines races with other inputs and the aggregator worker; a concurrent map write aborts the process)", bad, n))
@@ -769,8 +778,7 @@ func reCacheLockset(c *Check) {
 
 func c03r4b(c *Check, cacheF, matcherF *types.Var) {
 	// (b) key and value provenance in matchWithCache
-	mwc := c.P.Func("aggregator", "*Aggregator", "matchWithCache")
-	keyPar := mwc.Params[1]
+	mwc, keyPar := cacheLookupFunc(c)
 	isKeyString := func(v ssa.Value) bool {
 		cv, ok := v.(*ssa.Convert)
 		return ok && cv.X == keyPar
@@ -896,4 +904,71 @@ func c03r4b(c *Check, cacheF, matcherF *types.Var) {
 		c.Hold("Aggregator.Matcher immutable after construction", "-", "no store to the field outside constructors")
 	}
 	_ = types.Typ
+}
+
+// callersHoldFieldMutex: every static call site of the method fn holds the mutex field muF of the
+// object it passes as receiver (exclusively if asked), or lies in a helper for which the same is true.
+func callersHoldFieldMutex(p *Prog, fn *ssa.Function, muF *types.Var, exclusive bool, depth int) bool {
+	if depth > 2 || fn.Signature.Recv() == nil {
+		return false
+	}
+	ins := p.CG().In[fn]
+	if len(ins) == 0 {
+		return false
+	}
+	for _, e := range ins {
+		cc := callCommon(e.Site)
+		if e.Kind != EdgeCall || e.Dyn || cc == nil || len(cc.Args) == 0 {
+			return false
+		}
+		recv := cc.Args[0]
+		ops := mutexOps(e.Caller)
+		same := func(m mutexOp) bool { return m.field == muF && sameBase(m.base, recv) }
+		held := false
+		if exclusive {
+			_, held = heldExclusiveAt(ops, same, e.Site)
+		} else {
+			_, held = heldAt(ops, same, e.Site)
+		}
+		if held {
+			continue
+		}
+		if len(ops) == 0 && callersHoldFieldMutex(p, e.Caller, muF, exclusive, depth+1) {
+			continue
+		}
+		return false
+	}
+	return true
+}
+
+// cacheLookupFunc: the function that looks the name up in the aggregator's match cache —
+// matchWithCache, or the helper method it calls for that — and that function's key parameter.
+func cacheLookupFunc(c *Check) (*ssa.Function, *ssa.Parameter) {
+	mwc := c.P.Func("aggregator", "*Aggregator", "matchWithCache")
+	cacheF := c.P.Field("aggregator", "Aggregator", "reCache")
+	has := func(f *ssa.Function) bool {
+		found := false
+		allInstrs(f, func(in ssa.Instruction) {
+			if l, ok := in.(*ssa.Lookup); ok {
+				if _, fld, ok := fieldLoad(l.X); ok && fld == cacheF {
+					found = true
+				}
+			}
+		})
+		return found
+	}
+	if has(mwc) {
+		return mwc, mwc.Params[1]
+	}
+	for _, f := range workerFuncs(c.P, mwc) {
+		if f == mwc || f.Parent() != nil || !has(f) {
+			continue
+		}
+		for _, par := range f.Params {
+			if args, ok := c.P.paramArgs(par); ok && len(args) == 1 && args[0] == ssa.Value(mwc.Params[1]) {
+				return f, par
+			}
+		}
+	}
+	return mwc, mwc.Params[1]
 }
